@@ -508,6 +508,9 @@ class Ev:
     def lookup(self, name, env, mod: Mod, node=None):
         if name in env:
             return env[name]
+        if name in env.get("__locals__", ()):
+            # a local of the function being folded that no executed statement has bound
+            raise RaisedV("UnboundLocalError", f"{mod.rel}:{getattr(node, 'lineno', 0)}" if mod else "")
         if name in ("True", "False", "None"):
             return {"True": True, "False": False, "None": None}[name]
         if mod is not None:
@@ -1064,6 +1067,8 @@ class Ev:
                 env["__self__"] = args[0]
             env["__masks__"] = {}
             env["__qual__"] = ref
+            from .cfg import DefiniteAssignment
+            env["__locals__"] = DefiniteAssignment.collect_locals(fd) - set(closure or {})
             is_gen = any(isinstance(x, (ast.Yield, ast.YieldFrom)) for x in ast.walk(fd))
             if is_gen:
                 env["__yields__"] = []
